@@ -162,7 +162,9 @@ CLAIMED.update({
                 "no_collision) and for bags of fewer than 2^24 cells.",
     },
     "C11": {
-        "text": "Machine-checked proof that every proof built by pruning any set of subtrees of an ordinary tree is accepted "
+        "text": "Machine-checked proof that every proof built by pruning any set of level-0 subtrees of a tree - ordinary, or "
+                "containing exotic cells incl. nested Merkle proofs/updates, where holes below j Merkle cells are pruned "
+                "with mask 2^j - is accepted "
                 "by the models of check_proof and check_block_header_proof (complete), that acceptance means what it should, "
                 "and that a virtualised tree whose level-0 hash equals the hash of a tree t IS t with pruned subtrees naming "
                 "the right hashes - or an explicit SHA-256 collision is exhibited (sound, no axiom); a pruned-branch "
@@ -171,7 +173,7 @@ CLAIMED.update({
         "design_ref": "DESIGN.md 4.11",
         "technique": "Coq proof: pruning invariance from C02, unique readability of the cell representation, decidable "
                      "equality of representations to exhibit collisions; correspondence by extracted OCaml model",
-        "note": "7 theorems closed under the global context. The TL-B walk from the shard state to the ShardAccount cell "
+        "note": "12 theorems closed under the global context (5 of them for trees with nested Merkle cells, incl. soundness). The TL-B walk from the shard state to the ShardAccount cell "
                 "inside check_account_proof is not modelled (exercised on the implementation only).",
     },
 })
@@ -180,13 +182,14 @@ CLAIMED.update({
     "C03": {
         "text": "Machine-checked proof that for every constructible tree/DAG (ordinary and exotic cells, sharing) and each "
                 "of the 6 valid option sets, the parser model applied to the bytes of the serialiser model returns exactly "
-                "one root, which is the very same cell (same structure, same hash). The hex/base64 input forms and the "
-                "Cell/Slice/Builder entry points are covered by the differential run only (they are one-line wrappers "
-                "over CPython's bytes.fromhex/base64).",
+                "one root, which is the very same cell (same structure, same hash); that the bytes, their hex text and "
+                "their base64 text (models of bytes.fromhex and binascii.a2b_base64 as Boc.__init__ uses them) normalise to "
+                "the same bytes for every bag with a BoC magic, and that the Cell, Slice and Builder entry points return "
+                "that cell / its bits and references. All tied to the code by differential runs.",
         "design_ref": "DESIGN.md 4.3",
         "technique": "Coq proof: corollary of C04 (emitted bytes are strictly valid) and C05 (parser agrees with the strict "
                      "decoder), build is a function; correspondence by extracted OCaml model on DAGs up to 70k cells",
-        "note": "2 theorems closed under the global context; modulo hash collisions (explicit hypothesis) and for bags of "
+        "note": "5 theorems closed under the global context; modulo hash collisions (explicit hypothesis) and for bags of "
                 "fewer than 2^24 cells.",
     },
 })
@@ -197,12 +200,14 @@ CLAIMED.update({
                 "header leaves three bits (any state-init, any body cell: parts are moved into references), and that the "
                 "cell decodes under an independent reading of block.tlb (Message/CommonMsgInfo/StateInit/CurrencyCollection) "
                 "to the same logical message; stand-alone StateInit, CurrencyCollection (with extra currencies) and "
-                "HASH_UPDATE round trips. The library's parser (traced decision tree), the independent decoder and the "
-                "code agree on 1700 generated messages incl. alternative placements.",
+                "HASH_UPDATE round trips; and that the library's own parser (the decision tree traced from "
+                "MessageAny.deserialize) returns the same message from that cell and from all four inline/by-reference "
+                "placements of state-init and body (via the C16 theorem for MessageAny). The parser, the independent decoder "
+                "and the code agree on 1700 generated messages; wallet and NFT data wrappers by oracle.",
         "design_ref": "DESIGN.md 4.15",
         "technique": "Coq proof: bit/reference budget arithmetic over the placement branches, composition of the C06/C09 "
                      "primitive round trips; correspondence by extracted OCaml model and regenerated decision trees",
-        "note": "5 theorems closed under the global context. Wallet/NFT data wrappers are covered by correspondence only.",
+        "note": "8 theorems closed under the global context (library-parser theorems need addresses of the kinds block.tlb prescribes). Wallet/NFT data wrappers are covered by the oracle only.",
     },
     "C19": {
         "text": "PARTIAL by nature (cost semantics, not wall-clock). Machine-checked proof that the traversal used by "
@@ -256,23 +261,26 @@ CLAIMED.update({
 
 CLAIMED.update({
     "C16": {
-        "text": "For 30 of the 44 TL-B types the property names (all transaction phases and five of the seven description "
-                "kinds, account / storage types, block-header components, validator descriptors, catchain config; 87 types "
-                "in total incl. config parameters) a machine-checked theorem: for every well-typed value encoded per the "
-                "block.tlb layout, running the decision tree the tracer extracted from the library's deserialize method "
-                "returns every field with the encoded value and leaves exactly the rest. The theorem is generic (proved "
-                "once for the layout language); per type the traced tree is shown EQUAL to the compilation of the "
-                "hand-transcribed layout by computation, so a changed width, tag, signedness or field order breaks the "
-                "obligation. The trees are regenerated from the source on every run (concolic trace of the real code) and "
-                "run against the code on generated inputs. 10 further named types are traced and compared with committed "
-                "reference trees (no theorem); OutMsg, BlockInfo, BlkPrevInfo, ShardDescr cannot be traced and are not "
-                "covered.",
+        "text": "For every TL-B type the property names (transactions with all seven description kinds and all phases, "
+                "accounts and shard accounts, account blocks, in/out message descriptors and envelopes, messages, block "
+                "headers with their previous-block references, value flows, shard descriptors, validator sets, catchain "
+                "config; 115 theorems incl. config parameters and wallet/NFT data) a machine-checked theorem: for every "
+                "well-typed value encoded per the block.tlb layout (for every choice of Either alternatives), running "
+                "the decision tree the tracer extracted from the library's deserialize method returns every field with the "
+                "encoded value and leaves exactly the rest. The theorem is generic (proved once for the layout language); "
+                "per type the traced tree is shown EQUAL to the compilation of the hand-transcribed layout by computation, "
+                "so a changed width, tag, signedness, field or reference order breaks the obligation. The trees are "
+                "regenerated from the source on every run (concolic trace of the real code) and run against the code on "
+                "generated inputs; an independent decoder written from block.tlb checks the bundled real block field by "
+                "field and generated BlockInfo/ShardDescr cells.",
         "design_ref": "DESIGN.md 4.16",
         "technique": "Coq proof: generic correctness of compile (layout -> decision tree) w.r.t. the layout encoder, plus "
                      "per-type tree equality by vm_compute over trees regenerated from the source by a concolic tracer; "
                      "correspondence by extracted OCaml model",
-        "note": "87 theorems closed under the global context. Trusted: the tracer (fail-closed) and the transcription of "
-                "block.tlb. addr_var addresses and HashmapAugE types are outside the model.",
+        "note": "115 theorems (+7 fuel lemmas) closed under the global context. Trusted: the tracer (fail-closed) and the "
+                "transcription of block.tlb. addr_var addresses are outside the model; all cells in the statements are "
+                "ordinary (exotic-cell behaviour of the parsers is stated separately); ShardAccounts (HashmapAugE) has the "
+                "tree equality only.",
     },
 })
 
